@@ -214,6 +214,28 @@ func main() {
 	sb.WriteString("%meta ioatt xo cp: cpu5, index:0, type:output\n%meta ioatt xo cp: bm, index:0, type:output\n%meta bmdef global registersize:8\n")
 	jobs = append(jobs, job{Name: "basm-directed-literals-6cps", Tool: "basm", Class: "directed", Files: map[string]string{"in.basm": sb.String()},
 		Args: []string{"-disable-dynamical-matching", "-o", "out.json", "-dump-requirements", "req.json", "in.basm"}, Outputs: []string{"out.json", "req.json"}})
+	// directed: five CPs sharing dynamically created opcodes (fixed point add/mult, rsets) in different
+	// subsets: the order in which the sections register them must not reach the output
+	{
+		var sb strings.Builder
+		uses := [][]string{{"multfps16f8", "addfps16f8"}, {"addfps16f8"}, {"addfps16f8", "multfps16f8"}, {"multfps16f8"}, {"addfps16f8"}}
+		for c, u := range uses {
+			fmt.Fprintf(&sb, "%%section d%d .romtext\n\tentry _start\n_start:\n\ti2r r0, i0\n\ti2r r1, i1\n", c)
+			for _, op := range u {
+				fmt.Fprintf(&sb, "\t%s r0, r1\n", op)
+			}
+			sb.WriteString("\tr2o r0, o0\n\tj _start\n%endsection\n")
+		}
+		for c := range uses {
+			fmt.Fprintf(&sb, "%%meta cpdef dcp%d romcode: d%d\n", c, c)
+			fmt.Fprintf(&sb, "%%meta ioatt di%da cp: dcp%d, index:0, type:input\n%%meta ioatt di%da cp: bm, index:%d, type:input\n", c, c, c, 2*c)
+			fmt.Fprintf(&sb, "%%meta ioatt di%db cp: dcp%d, index:1, type:input\n%%meta ioatt di%db cp: bm, index:%d, type:input\n", c, c, c, 2*c+1)
+			fmt.Fprintf(&sb, "%%meta ioatt do%d cp: dcp%d, index:0, type:output\n%%meta ioatt do%d cp: bm, index:%d, type:output\n", c, c, c, c)
+		}
+		sb.WriteString("%meta bmdef global registersize:16\n")
+		jobs = append(jobs, job{Name: "basm-directed-dynamic-opcodes-5cps", Tool: "basm", Class: "directed", Files: map[string]string{"in.basm": sb.String()},
+			Args: []string{"-o", "out.json", "-dump-requirements", "req.json", "in.basm"}, Outputs: []string{"out.json", "req.json"}})
+	}
 	// ---- neuralbond ----
 	neurons, _ := filepath.Glob("/repo/library/neurons/*.basm")
 	if r := os.Getenv("VERIF_REPO"); r != "" && r != "/repo" {
